@@ -32,7 +32,7 @@ RULE = ("structured families first: (1) chains of length 3-4 with every set of s
         "variables, conflicting values and None values; one stream per anchored function (minimize, minimize_event, simplify, "
         "ancestors, the two merge passes separately and composed, conditioned variables in an ancestral set, ancestral set "
         "after conditioning, ancestral components, ctf-factor form, factors, conversion, factorisation, "
-        "simplify-then-factorise, the three query classes Lean vs Python) plus a malformed stream (names outside the graph, "
+        "simplify-then-factorise, the three query classes Lean vs Python, the two specification evaluators Lean vs Python) plus a malformed stream (names outside the graph, "
         "Intervention objects, value marks).  A case is non-trivial when the graph has >=3 nodes and a directed edge and the "
         "argument mentions at least one subscript (for component cases: at least two input sets).")
 ASSUMPTIONS = [
@@ -43,6 +43,7 @@ ASSUMPTIONS = [
     "Def. 4.2 'not disjoint' is read on graph vertices (two sets containing W_z and W_z' share the vertex W), as in the proof of Lemma A.5 and in y0's docstring; X_*(W_t) = V(||X_*|| ∩ An(W_t)) is read as y0's docstring reads it (graph vertices, intersection by == of the variable objects)",
     "cond_in_ancestral_set_spec: completeness (every minimised conditioned variable that == a member of An(W_t) is found) is proved for subscript lists in the canonical Iv.lt order of the line protocol, in which == of two frozensets is structural equality of the model's lists; soundness is unconditional",
     "is_counterfactual_factor_form: Def. 3.4 asks for subscripts equal to pa_W; y0 accepts supersets of pa_W (the same random variable); theorem factor_form_spec characterises what y0 accepts, the oracle has no opinion on strict supersets",
+    "SPEC cross-check (op sem_values): on sampled functional SCMs the Lean specification functions probEventOpt and factorisedValue (Spec/CtfSem.lean, evaluated by the driver on the transferred model) return exactly the rationals the Python oracle computes (prob_event, eval_factorised), inside and outside the three classes; this validates that factorisation_den_partial speaks about the quantity the oracle judges, it is sampling, not proof",
     "factorised expression (Spec/CtfSem.lean factorisedValue = oracle eval_factorised): a '-N' subscript whose name is bound by the enclosing Sum denotes the bound value, every other subscript its literal value; a factor variable that is neither bound nor given a value by the returned event is unconstrained; Sum ranges over the values below card",
     "semantic theorems are over Spec/Fscm.lean (cf family): finitely many independent exogenous variables, deterministic mechanisms, evaluation along a topological order; Compatible only asks that the mechanisms read parents of G and share noise only across bidirected edges of G; the oracle samples binary/ternary variables, one binary latent per bidirected edge, private binary noise",
     "the two merge passes are modelled as 'unions of connected components of the link graph' (the depth-first traversal order, which depends on Python set iteration, is abstracted); the second pass is modelled under the invariant 'input sets are non-empty and disjoint on graph vertices', proved for the output of the first pass (mergeCommon_base_disjoint) and imposed on the generator of the stand-alone op merge_bidirected (other inputs are compared as 'unspecified')",
@@ -56,7 +57,7 @@ LEANCHECK_MODULES = ["Y0.Model.Ctf", "Y0.Model.CtfSimplify", "Y0.Model.CtfFactor
 
 OPS = ["minimize", "minimize_event", "simplify", "ancestors", "components_from_sets", "ancestral_components",
        "is_factor_form", "factors", "factors_values", "convert", "factorize", "simplify_factorize", "factorize_classes",
-       "cond_in_ancestral_set", "ancestral_set_after", "merge_common", "merge_bidirected"]
+       "cond_in_ancestral_set", "ancestral_set_after", "merge_common", "merge_bidirected", "sem_values"]
 
 
 # ------------------------------------------------------------------------------------------ encoding helpers
@@ -437,13 +438,14 @@ def cases(rng: random.Random, tier: str):
                         vs[i] = V(S.name(vs[i]), vs[i][4] + [[rng.choice(extra), "m"]])
             c["vs"] = vs
         out.append(c)
-    sem_ops = ["minimize"] * 3 + ["simplify"] * 5 + ["factorize"] * 3 + ["simplify_factorize"] * 3
+    sem_ops = ["minimize"] * 6 + ["simplify"] * 10 + ["factorize"] * 6 + ["simplify_factorize"] * 6 + ["sem_values"]
     for _ in range(n_sem):
         op = rng.choice(sem_ops)
         malformed = op == "simplify" and rng.random() < 0.1
         g = _scm_graph(rng, 5 if quick else 6)
         nodes = G.all_nodes(g)
-        c = {"op": op, "g": g, "seed": rng.randrange(1 << 30), "models": models, "malformed": malformed}
+        c = {"op": op, "g": g, "seed": rng.randrange(1 << 30), "models": 1 if op == "sem_values" else models,
+             "malformed": malformed}
         if op == "minimize":
             c["v"] = rand_var(rng, g, nodes, star_plain=0.95, p_both=0.0)
             if not c["v"][4]:
@@ -601,6 +603,17 @@ def _call(case):
             out = ["ok", C.as_set([C.as_set([_enc_var(v) for v in s]) for s in r])]
             if not _disjoint_bases(case["sets"]) or any(not s for s in case["sets"]):
                 out = ["ok", "unspecified"]   # only reached with non-empty sets that are disjoint on graph vertices
+        elif op == "sem_values":
+            # SPEC cross-check: P(query) and the value of the returned sum-product, Python oracle vs Lean specification
+            expr, ev = api.do_counterfactual_factor_factorization(variables=_dec_event(case["e"]), graph=graph)
+            fact = _enc_factorisation(expr, ev)
+            if not _sem_eligible(case) or fact[0] != "fact":
+                out = ["ok", "skip"]
+            else:
+                m, nu = _models(case, case["g"])[0]
+                q = case["e"]
+                out = ["ok", [_frac(F.prob_event(m, q, nu)),
+                              _frac(F.eval_factorised(m, nu, [r[1] for r in fact[1]], fact[2], fact[3]))]]
         elif op == "factorize_classes":
             # no y0 code involved: the Python key functions of the known findings vs the Lean predicates of the theorem
             cs = _factorise_causes(case["g"], case["e"])
@@ -730,6 +743,28 @@ def _factorise_causes(g, q):
     if lit & (bases - set(outcome)):
         causes.add("literal-bound")       # a literal subscript of the query is captured by the summation index
     return sorted(causes)
+
+
+def _sem_eligible(case):
+    """queries on which both specifications (Lean Spec/CtfSem.lean, Python oracles/ctf_fscm.py) are defined"""
+    g, q = case["g"], case["e"]
+    return bool(q) and all(_var_ok(g, v) for v, _ in q) and F.readable_event(g, q) and _readable_query(q) \
+        and len(g["bi"]) <= 4 and S.is_acyclic(g)
+
+
+def _frac(x):
+    return [str(x.numerator), str(x.denominator)]
+
+
+def _model_sexp(m, nu):
+    mechs = []
+    for v in m.nodes:
+        rows = [[list(k), val_] for k, val_ in sorted(m.f[v].items())]
+        mechs.append([v, list(m.pa[v]), list(m.lat_of[v]), rows])
+    model = ["model", list(m.order), [list(w) for w in m.weights], mechs]
+    nus = [[v, nu[v][0], nu[v][1]] for v in m.nodes]
+    card = [[v, m.card[v]] for v in m.nodes]
+    return model, nus, card
 
 
 def _readable_query(q):
@@ -957,6 +992,12 @@ def request(case):
         return C.enc(["ctf", op, g, case["sets"]])
     if op in ("cond_in_ancestral_set", "ancestral_set_after"):
         return C.enc(["ctf", op, g, case["cond"], case["v"]])
+    if op == "sem_values":
+        if not _sem_eligible(case):
+            return C.enc(["ctf", "factorize", g, case["e"]])
+        m, nu = _models(case, case["g"])[0]
+        model, nus, card = _model_sexp(m, nu)
+        return C.enc(["ctf", op, g, case["e"], model, nus, card])
     if op == "ancestral_components":
         return C.enc(["ctf", op, g, case["cond"], case["roots"]])
     if op in ("is_factor_form", "factors"):
@@ -1002,6 +1043,10 @@ def canon_model(case, rep):
         return ["ok", C.as_set([C.as_set([list(it) for it in s]) for s in body])]
     if op == "is_factor_form":
         return ["ok", "false-or-err" if body == "false" and _outside(case) else body]
+    if op == "sem_values":
+        if not _sem_eligible(case) or len(body) != 2 or not all(isinstance(x, list) and len(x) == 2 and isinstance(x[0], str) for x in body):
+            return ["ok", "skip"]
+        return ["ok", [list(body[0]), list(body[1])]]
     if op == "factorize_classes":
         return ["ok", list(body)]
     if op == "factorize":
